@@ -16,7 +16,8 @@
      merged_voters g v    v = Some l with l listing exactly the voters of g, or None if g has none
      merged_from g b      g = b0 :: _, rk b = rk b0, wt b = Σ wt g, no scores, no id,
                           merged_voters g (vs b) *)
-From VK Require Import Base Core Cleaning EditSpec CleanSpec C12_cleaning.
+From VK Require Import Base Core Cleaning EditSpec CleanSpec.
+From VK.Proofs Require Import C12_cleaning.
 
 Section C12Cleaning.
 Variable cand : Type.
